@@ -1681,6 +1681,17 @@ fn replay(cx: &mut Cx, input: &str)
 	}
 	let words: Vec<&str> = input.split(' ').filter(|w| !w.is_empty()).collect();
 	let bad = |cx: &mut Cx| cx.report.oracle_fail(input.to_owned(), "unrecognised replay input");
+	if words.first() == Some(&"O")
+	{
+		// O <class> <form> <x> T <tree>
+		let parsed = (|| Some((words.get(2)?.parse::<usize>().ok()?, words.get(3)?.parse::<i64>().ok()?, T::parse_text(&words.get(5..)?.join(" "))?)))();
+		match parsed
+		{
+			Some((f, xv, t)) => check_stmt_order(cx, f, xv, &t),
+			None => bad(cx),
+		}
+		return;
+	}
 	match words.first().copied()
 	{
 		Some("S") =>
@@ -1749,7 +1760,10 @@ x random partition of the identifiers into known-now / declared-later / register
 evaluate vs the model on the exact resulting tree, changed flag, deferred cause and error kind, at every stage. Oracle: every order of \
 simplify / evaluate(now) / evaluate(all) / substitute-first that yields a number yields the same number, equal to a direct checked evaluation of \
 the expression; no order panics. End-to-end: two .du32 statements of the expression with the .const definitions above / below / below a .global \
-declaration assemble to the same bytes whenever they assemble. non-trivial = evaluation changed the tree".to_owned();
+declaration assemble to the same bytes whenever they assemble. Statement level: instructions whose address or register-or-immediate operand mixes a register, \
+constants and a symbol x (value-preserving wrappers around Rn, Rn +- k, Rn + Rm: * x, / x, << x, | x, ^ x, & x, + x, negated subtractions) assembled with \
+x defined above / below / further below: the orders that assemble give the same bytes, and they agree on acceptance unless the refusing order reports an \
+arithmetic overflow. non-trivial = evaluation changed the tree".to_owned();
 	// fixed shapes first
 	let fixed: Vec<(T, Binds)> = fixed_cases();
 	for (t, b) in fixed.iter()
@@ -1781,6 +1795,163 @@ declaration assemble to the same bytes whenever they assemble. non-trivial = eva
 	}
 	cx.report.hit_n("simplify-only trees", n2);
 	run_simplify_batch(cx, &trees);
+	run_stmt_order(cx);
+}
+
+// ---------------------------------------------------------------------------------------------------------
+// C08, statement level: operands that mix a register with constants (address and register-or-immediate operands).
+// "a statement emits the same bytes whether the constants it uses are defined above it or below it"
+
+const ORDER_FORMS: [(&str, bool); 7] = [("LDRB r2, {}", true), ("LDR r3, {}", true), ("STRH r1, {}", true), ("STR r0, {}", true),
+	("MOVS r4, {}", false), ("ADDS r1, r2, {}", false), ("CMP r1, {}", false)];
+
+/// as `assemble`, with the diagnostics in their `Debug` form (variant names, not wording)
+fn assemble_dbg(text: &str) -> Result<Vec<u8>, String>
+{
+	let directives = DirectiveList::generate();
+	let mut ctx = Context::new(&Arm6M, &directives);
+	drop(ctx.assemble(text.as_bytes(), PathBuf::from("t.asm")));
+	if let Err(e) = ctx.close_segment() {return Err(format!("close: {e:?}"));}
+	if !ctx.finalize()
+	{
+		return Err(ctx.get_errors().iter().map(|e| format!("{e:?}")).collect::<Vec<_>>().join("; "));
+	}
+	let mut out = Vec::new();
+	for (_, data) in ctx.output().iter() {out.extend_from_slice(data);}
+	Ok(out)
+}
+
+fn has_negsub(t: &T) -> bool
+{
+	match t
+	{
+		T::Bin(op, l, r) => (*op == SUB && matches!(**r, T::C(v) if v < 0)) || has_negsub(l) || has_negsub(r),
+		T::Neg(a) | T::Not(a) | T::Addr(a) => has_negsub(a),
+		T::Seq(v) | T::Func(_, v) => v.iter().any(has_negsub),
+		_ => false,
+	}
+}
+
+fn order_input(form: usize, xv: i64, t: &T) -> String
+{
+	// class of the case: does the evaluator, given every value at once, leave a subtraction of a negative constant behind?
+	let fresh = real_evaluate(t, &[("x".to_owned(), xv)].into_iter().collect(), &[]);
+	let class = if fresh.tree().is_some_and(has_negsub) {"negsub"} else {"plain"};
+	format!("O {class} {form} {xv} T {}", t.text())
+}
+
+fn check_stmt_order(cx: &mut Cx, form: usize, xv: i64, t: &T)
+{
+	let input = order_input(form, xv, t);
+	let (tmpl, addr) = ORDER_FORMS[form % ORDER_FORMS.len()];
+	let operand = if addr {format!("[{}]", t.source())} else {t.source()};
+	let stmt = tmpl.replace("{}", &operand);
+	let def = format!(".const x, {};", T::C(xv).source());
+	let programs = [
+		("defined above", format!(".addr 0x20000000;\n{def}\n{stmt};\n")),
+		("defined below", format!(".addr 0x20000000;\n{stmt};\n{def}\n")),
+		("defined below, more code between", format!(".addr 0x20000000;\n{stmt};\nNOP;\n.du8 x & 0xFF;\n{def}\n")),
+	];
+	let mut results: Vec<(&str, Result<Vec<u8>, String>)> = Vec::new();
+	for (name, text) in programs.iter()
+	{
+		match guarded(|| assemble_dbg(text))
+		{
+			Ok(r) => results.push((name, r)),
+			Err(p) => {cx.report.oracle_fail(input.clone(), format!("assembling {stmt:?} with x {name} panicked: {p}")); return;},
+		}
+	}
+	let first: Vec<Option<Vec<u8>>> = results.iter().map(|(_, r)| r.as_ref().ok().map(|b| b[..b.len().min(2)].to_vec())).collect();
+	let accepted = first.iter().filter(|r| r.is_some()).count();
+	cx.report.hit(&format!("stmt order: {accepted} of 3 orders assemble"));
+	let key = format!("{first:?}");
+	cx.report.case(if accepted == 0 {None} else {Some(&key)});
+	// every order that assembles gives the same statement bytes
+	let oks: Vec<&Vec<u8>> = first.iter().flatten().collect();
+	if oks.windows(2).any(|w| w[0] != w[1])
+	{
+		cx.report.oracle_fail(input.clone(), format!("{stmt:?} assembles to different bytes depending on where x is defined: {first:?}"));
+		return;
+	}
+	// and the orders agree on acceptance, unless the refusing order reports an arithmetic overflow which the other
+	// order's association avoided (C08 claims equal values only "whenever both produce a value")
+	if accepted != 0 && accepted != 3
+	{
+		let refused: Vec<&(&str, Result<Vec<u8>, String>)> = results.iter().filter(|(_, r)| r.is_err()).collect();
+		if !refused.iter().all(|(_, r)| r.as_ref().err().is_some_and(|e| e.contains("Overflow")))
+		{
+			let (n, e) = refused.iter().find(|(_, r)| !r.as_ref().err().is_some_and(|e| e.contains("Overflow"))).map(|(n, r)| (*n, r.clone().err().unwrap_or_default())).unwrap();
+			let okn = results.iter().find(|(_, r)| r.is_ok()).map(|(n, _)| *n).unwrap_or("");
+			cx.report.oracle_fail(input, format!("{stmt:?} (x = {xv}) assembles to {} with x {okn} but is refused with x {n}: {}", hex(oks[0]), &e[..e.len().min(300)]));
+		}
+		else {cx.report.hit("stmt order: acceptance differs by an overflow only (tolerated)");}
+	}
+}
+
+fn gen_order_tree(rng: &mut Rng) -> T
+{
+	let r = id(*rng.pick(&["r0", "r1", "r5", "r7", "R3", "sp"]));
+	let k = |rng: &mut Rng| T::C(*rng.pick(&[0i64, 1, -1, 2, -2, 3, 4, -4, 7, 8, 31, 32, 124, -124]));
+	let x = || id("x");
+	let neg = |t: T| T::Neg(Box::new(t));
+	let mut t = match rng.below(6)
+	{
+		0 => r,
+		1 => bin(ADD, r, k(rng)),
+		2 => bin(SUB, r, k(rng)),
+		3 => bin(ADD, k(rng), r),
+		4 => neg(bin(SUB, k(rng), r)),
+		_ => bin(ADD, r, id(*rng.pick(&["r2", "r6", "R4"]))),
+	};
+	for _ in 0..rng.below(5)
+	{
+		t = match rng.below(16)
+		{
+			0 => bin(MUL, t, x()),
+			1 => bin(MUL, x(), t),
+			2 => bin(DIV, t, x()),
+			3 => bin(SHL, t, x()),
+			4 => bin(SHR, t, x()),
+			5 => bin(OR, t, x()),
+			6 => bin(XOR, x(), t),
+			7 => bin(AND, t, x()),
+			8 => bin(ADD, t, x()),
+			9 => bin(SUB, t, x()),
+			10 => neg(neg(t)),
+			11 => neg(bin(SUB, k(rng), t)),
+			12 => bin(SUB, k(rng), neg(t)),
+			13 => bin(ADD, t, k(rng)),
+			14 => bin(SUB, t, k(rng)),
+			_ => bin(ADD, bin(MUL, x(), k(rng)), t),
+		};
+	}
+	t
+}
+
+fn run_stmt_order(cx: &mut Cx)
+{
+	// fixed: the shapes whose evaluation swaps a negated subtraction
+	let x = || id("x");
+	let r0 = || id("r0");
+	let fixed: Vec<(usize, i64, T)> = vec![
+		(0, 1, bin(MUL, T::Neg(Box::new(bin(SUB, T::C(-1), r0()))), x())),
+		(1, 1, bin(DIV, T::Neg(Box::new(bin(SUB, T::C(-4), r0()))), x())),
+		(2, 0, bin(SHL, T::Neg(Box::new(bin(SUB, T::C(-2), r0()))), x())),
+		(0, 1, bin(MUL, bin(ADD, r0(), T::C(1)), x())),
+		(4, 1, bin(MUL, T::Neg(Box::new(bin(SUB, T::C(0), id("r1")))), x())),
+		(0, 0, bin(ADD, bin(ADD, r0(), T::C(1)), x())),
+		(0, 2, bin(ADD, T::Neg(T::Neg(Box::new(r0())).into()), x())),
+	];
+	for (f, xv, t) in fixed.iter() {check_stmt_order(cx, *f, *xv, t);}
+	let n = if cx.thorough() {60_000} else {6_000};
+	for i in 0..n
+	{
+		let mut rng = cx.rng.fork();
+		let t = gen_order_tree(&mut rng);
+		let xv = *rng.pick(&[0i64, 1, 1, -1, 2, 4]);
+		check_stmt_order(cx, (i % ORDER_FORMS.len() as u64) as usize, xv, &t);
+		if cx.report.oracle_failures_total >= 40 {break;}
+	}
 }
 
 fn fixed_cases() -> Vec<(T, Binds)>
